@@ -21,7 +21,9 @@ case "$DEMO" in *.py) RUN="python3 $DEMO";; *) RUN="bash $DEMO";; esac
 $RUN /tmp/confirm/git-ai.orig >/tmp/confirm/demo-orig.log 2>&1; RO=$?
 $RUN /tmp/confirm/git-ai.$ID >/tmp/confirm/demo-mut.log 2>&1; RM=$?
 echo "demo unchanged exit=$RO changed exit=$RM"
+rm -f /tmp/confirm/wt/target/nextest/pb/junit.xml
 cargo nextest run --offline --no-fail-fast --tool-config-file pb:/w/lib/nextest.toml --profile pb --test-threads 6 -E "$FILTER" >/tmp/confirm/tests.log 2>&1
+if grep -q "^error: command .*--no-run" /tmp/confirm/tests.log || [ ! -f /tmp/confirm/wt/target/nextest/pb/junit.xml ]; then echo "TEST BUILD FAILED WITH THE CHANGE"; grep -n "^error" -A6 /tmp/confirm/tests.log | head -30; git checkout -q -- .; exit 5; fi
 python3 - <<PY
 import json, xml.etree.ElementTree as ET
 base=set(json.load(open('/root/.vp/BASELINE.json'))['stable_pass'])
